@@ -251,7 +251,7 @@ func TestC11Rapid(t *testing.T) {
 			return
 		}
 		st.Class(cls)
-		st.Cover("family_x_scheme", c.label())
+		st.Cover("family_x_scheme", c.Label())
 		if c.Scheme != nil {
 			m := c.Scheme.FG.Model
 			if c.Scheme.Predefined > 0 {
@@ -333,7 +333,7 @@ func TestC11Sweep(t *testing.T) {
 			}
 			st.Class(cls)
 			c := cases[i]
-			st.Cover("family_x_scheme", c.label())
+			st.Cover("family_x_scheme", c.Label())
 			if c.Scheme != nil {
 				st.NonTrivial(H(fmt.Sprintf("%+v %+v", c, *c.Scheme)))
 			}
